@@ -719,9 +719,12 @@ mod response {
                 buffer.extend_from_slice(&self.bytes);
                 self.offset = self.bytes.len();
             }
+            // Never take more from the connection than what is left of this body:
+            // `read_to_end_or_max` may hand the reader a window larger than that.
+            let left = (len - buffer.len()) as u64;
             if let Ok(result) = timeout(
                 Duration::from_secs(30),
-                async_bits::read_to_end_or_max(&mut buffer, &mut *self, len),
+                async_bits::read_to_end_or_max(&mut buffer, (&mut *self).take(left), len),
             )
             .await
             {
